@@ -65,7 +65,8 @@ impl Ep {
             "sctp" => Ok(Ep::Sctp(sctp::Ep::build(variant % 2 == 1).await?)),
             "pc_sdp" => Ok(Ep::Pc(pc::Ep::build(false, pc::mode_for(tpl)).await?)),
             "pc_candidate" => Ok(Ep::Pc(pc::Ep::build(true, pc::mode_for("sdp.webrtc")).await?)),
-            "ice_udp" => Ok(Ep::IceUdp(ice::Udp::build().await?)),
+            // second concretisation: the process-wide single-port (mux) socket
+            "ice_udp" => Ok(Ep::IceUdp(ice::Udp::build(variant % 2 == 1).await?)),
             // first concretisation: a listener of its own; second: the process-wide single-port listener
             "ice_tcp" => Ok(Ep::IceTcp(ice::Tcp::build(variant % 2 == 1).await?)),
             // first concretisation: clear RTP; second: SRTP installed
@@ -234,7 +235,7 @@ async fn one_run(ctx: &Ctx, entry: &str, pre: &[Value], ci: usize, tpl: &str, cl
 }
 
 fn has_modes(entry: &str) -> bool {
-    matches!(entry, "sctp" | "ice_tcp" | "rtp_transport" | "dtls_client" | "dtls_server" | "pc_rtp")
+    matches!(entry, "sctp" | "ice_tcp" | "ice_udp" | "rtp_transport" | "dtls_client" | "dtls_server" | "pc_rtp")
 }
 
 pub async fn run_case(ctx: &Ctx, st: &mut State, ci: usize, c: &Value) -> Value {
